@@ -221,7 +221,7 @@ def check(ctx) -> Result:
         "text), RHO[P+-] = (I +- PAULI[P]) / 2, the four linear-inversion / gate-fidelity inputs are informationally complete (non-zero determinant of their vectorisations) and the "
         "input lists that must coincide do; role typing of tensor factors: with rows of a process matrix typed OUT and columns IN, the reference Choi matrix (choi_from_unitary, "
         "row-major vectorisation) and the estimators (kron(rho_in, P_out) in LI, kron(rho_in, Pi_out) in MLE) must use one factor order - they do not (known finding F9); the base "
-        "circuit is only ever added to fresh circuits. Not decided: conjugation/transposition conventions for complex gates, MLE convergence and CPTP projection, the gate-fidelity formula."
+        "circuit is only ever added to fresh circuits. conjugation/transposition parity (conjalg): linear inversion, the MLE model and its gradient, and the reference all pair the Choi matrix with rho^T (x) P. Not decided: MLE convergence and CPTP projection numerics, the gate-fidelity formula."
     )
     res.assumptions = ["single-qubit gate classes mean their textbook matrices (C13)", "numpy flatten() is row-major; np.kron(a, b) puts a's index as the major one"]
     env = rk_tables.eval_module_tables(ctx, MAP)
